@@ -5,8 +5,17 @@ QTicks == {1, 2}
 QGrads == {<<0, 0>>, <<3, 4>>, <<-3, 4>>, <<1, -1>>, <<2, 0>>}
 QGTols == {<<0, 1>>, <<5, 1>>, <<7, 1>>, <<3, 2>>, <<2, 1>>}
 QNorms == {1, 2, INF}
+QGScales == {0}
 TSecs  == {0, 1, 2, 4, 5}
 TTicks == {1, 2, 3}
 TGrads == QGrads \cup {<<0, -2>>, <<1, 2, -2>>, <<0, 0, 0>>, <<-4, 3>>}
 TGTols == QGTols \cup {<<4, 1>>, <<1, 2>>, <<3, 1>>}
+\* wide: two-digit limits (10 s, 12 s) and the documented default (86400 s: `seconds` omitted) reached EXACTLY by
+\* two ticks; recorded gradients in units of 2^-30 (1e-9) and 2^33 (1e10), a one-element and an all-equal gradient
+WSecs  == {40, 48, 345600}
+WTicks == {20, 28, 345580}
+WGrads == {<<0, 0>>, <<3, 4>>, <<-3, 4>>, <<5>>, <<2, 2, 2, 2>>}
+WGTols == {<<0, 1>>, <<5, 1>>, <<7, 1>>, <<4, 1>>, <<1, 1024>>}
+WGScales == {-30, 33}
+XGScales == {-30, -8, 10, 33}
 ====
